@@ -117,6 +117,23 @@ def check(ctx):
                             pushes = True
             ins = [(bi, ctb.call_args(bi)) for bi, c, t in cb.calls() if c is not None and c.name in ('or_insert', 'or_insert_with', 'or_default')]
             ins_ok = any(strip_sites(detry(a[1])) == ('list', (share_t,)) for bi, a in ins if len(a) > 1) if share_t else False
+            # equivalent single-path idiom: entry(id).or_default().push(share)  (or_insert(empty) / or_insert_with(Vec::new) likewise)
+            alt = False
+            for bi2, c2, t2 in cb.calls():
+                if c2 is None or c2.name != 'push' or share_t is None:
+                    continue
+                a2 = [strip_sites(detry(x)) for x in ctb.call_args(bi2)]
+                recv = a2[0]
+                if recv[0] == 'call' and call_name(recv) in ('or_default', 'or_insert', 'or_insert_with') and recv[2] and recv[2][0][0] == 'call' and call_name(recv[2][0]) == 'entry':
+                    empty_ok = call_name(recv) == 'or_default'
+                    if call_name(recv) == 'or_insert' and len(recv[2]) == 2 and seq_parts(recv[2][1], literal_only=True) == []:
+                        empty_ok = True
+                    if call_name(recv) == 'or_insert_with' and len(recv[2]) == 2 and recv[2][1][0] == 'fnref' and strip_generics(recv[2][1][1]).endswith('Vec::new'):
+                        empty_ok = True
+                    if empty_ok and a2[1] == share_t:
+                        alt = True
+            if alt:
+                pushes = ins_ok = True
             # every extracted share reaches the map: no conditional skip between extraction and entry (entry post-dominates the extraction success edge)
             ext_b = ext[0][0] if ext else None
             uncond = ext_b is not None and cb.dominates(ext_b, ents[0][0])
